@@ -20,7 +20,7 @@ static void random_inputs(const mjModel* m, mjData* d, Rng& r, bool vel, bool ac
 int main(int argc, char** argv) {
   setup(argc, argv, "C04");
   use_caching_alloc();
-  Supply sup; sup.init();
+  Supply sup; sup.init(); sup.allow_flex = true; sup.vary_options = true;
   for (uint64_t s = g_args.seed0; s < g_args.seed0 + g_args.n; s++) {
     begin_case(s);
     ND_CASE_GUARD();
@@ -57,7 +57,7 @@ int main(int argc, char** argv) {
         case RU_SPLITSTEP: {
           if (rk4 || sleep) { count("splitstep_skipped_rk4_or_sleep"); continue; }   // documented: RK4 and sleeping are outside this equivalence
           B = mj_copyData(nullptr, m, A);
-          int w0[3] = {A->warning[mjWARN_BADQPOS].number, A->warning[mjWARN_BADQVEL].number, A->warning[mjWARN_BADQACC].number};
+          uint64_t unstable0 = g_nunstable;
           mjtNum t0 = A->time;
           Rng r2 = r;   // same seeded inputs on both sides
           bool ea = ND_GUARD({ mj_step1(m, A); random_inputs(m, A, r, false, false); mj_step2(m, A); });
@@ -66,8 +66,10 @@ int main(int argc, char** argv) {
           if (ea) { dead = true; break; }
           // an automatic reset (bad qpos/qvel/qacc) inside the step clears the inputs: in the monolithic form the
           // inputs were set before it, in the split form after it - the equivalence is about steps without a reset
-          if (A->warning[mjWARN_BADQPOS].number != w0[0] || A->warning[mjWARN_BADQVEL].number != w0[1] || A->warning[mjWARN_BADQACC].number != w0[2] ||
-              B->warning[mjWARN_BADQPOS].number != w0[0] || B->warning[mjWARN_BADQVEL].number != w0[1] || B->warning[mjWARN_BADQACC].number != w0[2] || A->time < t0) {
+          // (the per-instance warning counters cannot tell: a reset clears them and re-adds one; the warning callback fires only
+          // for the first warning of an instance; simulated time is reliable: a step without a reset advances it by exactly one timestep)
+          mjtNum texp = t0; texp += m->opt.timestep;
+          if (g_nunstable != unstable0 || A->time != texp || B->time != texp) {
             count("splitstep_skipped_autoreset"); mj_deleteData(B); continue;
           }
           df = mu::compare(m, A, B, scratch);
@@ -89,6 +91,7 @@ int main(int argc, char** argv) {
           if (ea != eb) violation("skip-mismatch", "%s(stage %d): error raised on one side only: %s", what, stage, g_lasterr);
           if (ea) { dead = true; break; }
           std::set<std::string> ex = scratch;
+          ex.insert("warning.number");   // cumulative counters: the full pipeline repeats the skipped stages' warnings (e.g. a full constraint buffer), the skipping call does not
           df = mu::compare(m, A, B, ex);
           what = stage == mjSTAGE_POS ? "forwardSkip(POS)" : "forwardSkip(VEL)";
           break;
@@ -104,7 +107,7 @@ int main(int argc, char** argv) {
           bool eb = ND_GUARD({ mj_inverse(m, B); });
           if (ea != eb) violation("skip-mismatch", "%s(stage %d): error raised on one side only: %s", what, stage, g_lasterr);
           if (ea) { dead = true; break; }
-          df = mu::compare(m, A, B, scratch);
+          { std::set<std::string> ex = scratch; ex.insert("warning.number"); df = mu::compare(m, A, B, ex); }
           what = stage == mjSTAGE_POS ? "inverseSkip(POS)" : "inverseSkip(VEL)";
           break;
         }
@@ -127,7 +130,9 @@ int main(int argc, char** argv) {
           B = mj_copyData(nullptr, m, A);
           ea = ND_GUARD({ mj_forward(m, A); });
           if (ea) { dead = true; break; }
-          df = mu::compare(m, A, B, scratch);
+          std::set<std::string> ex = scratch;
+          ex.insert("warning.number");   // cumulative counters (e.g. a constraint buffer that is full at every call): statistics of the history, not an output
+          df = mu::compare(m, A, B, ex);
           break;
         }
       }
